@@ -19,7 +19,8 @@ Decided:
   R07.c  inheritance plumbing: BoundRoute.slash_mode = app.slash_mode if inherit_slashes else
          route.slash_mode and is the mode the pattern is compiled with; NullRoute binds with
          inherit_slashes=False and is constructed with S_REWRITE; every keyword a caller can put into the
-         bind kwargs is popped by BoundRoute.__init__ (kwarg-name agreement).
+         bind kwargs is popped by BoundRoute.__init__ (kwarg-name agreement); what add() itself enters under
+         'inherit_slashes' lies below the caller's keywords (an explicit False wins) and is the route factory's own setting.
 Declined: idempotence of normalize_path / "canonical path is a fixed point" as value statements;
 behaviour of werkzeug's redirect().
 """
@@ -888,6 +889,39 @@ def _forced_bind_key(fi, key, value_ok):
     return True
 
 
+def check_callers_slash_option_wins(rep, rule):
+    """``add(entry, inherit_slashes=False)`` is how a route / an embedded application keeps its own slash mode in an
+    application of another mode.  The mode a route is bound with follows the caller's keyword only if what add() itself
+    enters under 'inherit_slashes' into the keyword dict it binds with lies *below* the caller's keywords -- a default that
+    fills in when the caller passed nothing (``setdefault`` / ``if k not in kw``), never an entry written over, or
+    sometimes over, what the caller passed (False is a legal value) -- and that default is the route factory's own
+    setting, True when it has none.  (The layer model of the keyword dict is the one R10.e uses for the same dict.)"""
+    from .c10 import _add_view, KwDict
+    repo = rep.repo
+    app = repo.mod(APP)
+    ad, afl, rf, ball, bone = _add_view(app)
+    calls = ball + bone
+    kws = set(norm(k.value) for c in calls for k in c.keywords if k.arg is None)
+    if len(kws) != 1 or not calls:
+        raise AnalysisError('Application.add: the bind calls do not pass one keyword dict (%s)' % sorted(kws))
+    akd = KwDict(ad, afl, kws.pop(), [stmt_of(app, c) for c in calls])
+    how, v, st = akd.lookup('inherit_slashes')
+    if how == 'unknown':
+        raise AnalysisError("Application.add: what the bind keyword 'inherit_slashes' ends up as could not be established")
+    ok = how in ('default', 'caller', 'absent')
+    rep.check(rule, fkey(ad, "caller's inherit_slashes wins"), ok,
+              'add() enters inherit_slashes only below the caller\'s keywords: an explicit inherit_slashes=False keeps the route\'s own slash mode' if ok else
+              'add() %s the caller\'s inherit_slashes with %s: add(entry, inherit_slashes=False) binds the entry with the '
+              'application\'s slash mode all the same, so a strict / rewrite route in a redirect-mode application answers a non-canonical '
+              'path with a slash redirect' % ('sometimes overwrites' if how == 'conditional' else 'overwrites', short(v, 40) if v is not None else '?'),
+              app, st or ad.node)
+    if how == 'default':
+        ok = afl.text(v, st) == "getattr(%s, 'inherit_slashes', True)" % rf
+        rep.check(rule, fkey(ad, 'inherit_slashes default'), ok, 'without the keyword, add() takes the route factory\'s own setting (True when it has none)' if ok else
+                  'the default add() enters for inherit_slashes is %s, not the route factory\'s own setting with True as the fallback' % short(v, 50),
+                  app, st or ad.node)
+
+
 def _rest_of_slash_plumbing(rep, rule, bi, sm):
     repo = rep.repo
     app, route = repo.mod(APP), repo.mod(ROUTE)
@@ -911,6 +945,7 @@ def _rest_of_slash_plumbing(rep, rule, bi, sm):
         any(isinstance(s, ast.Assign) and norm(s.targets[0]) == 'self.inherit_slashes' and norm(s.value) == 'inherit_slashes' for s in stmts_of(sa.node))
     rep.check(rule, fkey(sa, 'inherit_slashes'), ok, 'SubApplication(inherit_slashes=True) stores its flag' if ok else
               'SubApplication does not store inherit_slashes (default True)', app, sa.node)
+    check_callers_slash_option_wins(rep, rule)
     ba = app.func('SubApplication.bind_all')
     fw = [(k, n, v) for k, n, v in bind_kwargs_written(ba) if k == 'inherit_slashes']
     ok = bool(fw) and all(v is not None and norm(v) == 'self.inherit_slashes' for k, n, v in fw)
